@@ -347,6 +347,63 @@ def w_weights(cfg, tier):
     return col.result()
 
 
+def w_matchwiring(cfg, tier):
+    """cfg = 'matchwiring <code>': the weights the real MatchingDecoder hands to the matching engine, in the full
+    mode and in the documented single-sector modes error_type='X' / 'Z': the X-error matcher (built on Hz) gets
+    the X-flip LLRs, the Z-error matcher (built on Hx) the Z-flip LLRs, for arbitrary per-qubit channels."""
+    from checks import c09
+    mods = c09._install()
+    md = mods['md']
+    from symx.stubs import MatchStub
+    code = common.make_code(cfg.split(' ', 1)[1])
+    n = code.n
+    col = hz.Collector(cfg)
+    col.encoded(md.MatchingDecoder.__init__, mods['bem'].BaseErrorModel.get_weights)
+    model, Q, base = c09.stub_model(mods['pem'], n)
+    old = md.Matching
+    md.Matching = MatchStub
+    eng = Engine(name=cfg)
+    try:
+        with eng:
+            def fn():
+                out = {}
+                for et in (None, 'X', 'Z'):
+                    dec = md.MatchingDecoder(code, model, 0.1, error_type=et)
+                    mx, mz = getattr(dec, 'matcher_x', None), getattr(dec, 'matcher_z', None)
+                    out[str(et)] = (None if mx is None else ([term_of(c, 'real') for c in np.asarray(mx.weights).reshape(-1)], mx.H),
+                                    None if mz is None else ([term_of(c, 'real') for c in np.asarray(mz.weights).reshape(-1)], mz.H))
+                return out
+            ps = eng.explore(fn)
+            wx_true, wz_true = c09.true_weights(Q, n)
+    finally:
+        md.Matching = old
+    col.absorb(eng)
+    bad = []
+    for p in ps:
+        if p.exc is not None:
+            col.record('C07/matching-weights/no-exception', 'sat', 0, True, None, f'{type(p.exc).__name__}: {p.exc}')
+            continue
+        d = []
+        for et, (gx, gz) in p.value.items():
+            for got, want, Hs, present in ((gx, wx_true, code.Hz, et in ('None', 'X')), (gz, wz_true, code.Hx, et in ('None', 'Z'))):
+                if (got is not None) != present:
+                    d.append(z3.BoolVal(True))
+                    continue
+                if got is None:
+                    continue
+                ws, H_ = got
+                if len(ws) != n or (H_ != Hs).nnz:
+                    d.append(z3.BoolVal(True))
+                    continue
+                d += [a_ != b_ for a_, b_ in zip(ws, want) if not a_.eq(b_)]
+        bad.append(z3_and(p.pc + [z3_or(d)]))
+    dom = base + [Q['X'][i] + Q['Y'][i] < 1 for i in range(n)] + [Q['Z'][i] + Q['Y'][i] < 1 for i in range(n)]
+    col.prove('C07/matching-weights/each-sector-matcher-gets-its-own-flip-marginal-LLRs', dom, z3_or(bad),
+              lambda m: dict(model=str(m)[:300]),
+              "error_type None / 'X' / 'Z': matcher_x on Hz with the X-flip LLRs, matcher_z on Hx with the Z-flip LLRs")
+    return col.result()
+
+
 def w_bposd(cfg, tier):
     """BP-OSD priors: channel probabilities pushed into ldpc are the flip marginals in column order;
     update_probabilities is the conditional-probability formula."""
@@ -515,7 +572,7 @@ def w_cache(cfg, tier):
 
 def worker(cfg, tier='quick'):
     return {'cache': w_cache, 'dist': w_dist, 'fast_choice': w_fast_choice, 'generate': w_generate, 'extremes': w_extremes,
-            'weights': w_weights, 'bposd': w_bposd}[cfg.split()[0]](cfg, tier)
+            'weights': w_weights, 'bposd': w_bposd, 'matchwiring': w_matchwiring}[cfg.split()[0]](cfg, tier)
 
 
 def replay(path):
@@ -619,6 +676,7 @@ def configs(tier):
     out += ['extremes RotatedPlanar2DCode(2,2)/XZZX/x', 'extremes Planar2DCode(2,2)/XY']
     ws = ['Toric2DCode(2,2)', 'RotatedPlanar2DCode(3,3)'] + (['Planar2DCode(4,3)', 'Toric3DCode(2,2,2)'] if tier != 'quick' else [])
     out += [f'weights {c}' for c in ws]
+    out += ['matchwiring Toric2DCode(2,2)', 'matchwiring RotatedPlanar2DCode(2,3)']
     bp = ['RotatedPlanar2DCode(2,2)', 'Toric2DCode(2,2)', 'RotatedPlanar2DCode(2,2)/XZZX/x', 'Toric2DCode(2,2)/XY']
     if tier != 'quick':
         bp += ['Planar2DCode(2,3)', 'Toric3DCode(2,2,2)/XZZX/z', 'XCubeCode(2,2,2)', 'RhombicPlanarCode(2,2,2)/Checkerboard_XZZX']
